@@ -4,6 +4,7 @@ import NixModel.Lemmas.StoreWF
 import NixModel.Lemmas.C12Avail
 import NixModel.Lemmas.C12MultiTagFull
 import NixModel.Lemmas.C12Extend
+import NixModel.Lemmas.C12VecWrite
 
 /-!
 # C12 — a refused operation leaves the file exactly as it was
@@ -221,6 +222,58 @@ theorem auto_array_life_cycle {g g1 : Graph} (hWF : WF g) {p : Path} {nm ty : St
 theorem auto_array_refused_unchanged {g : Graph} (hT : Tidy g) (p : Path) (n t : String) (f : Option Fault)
     (e : Err) (h : (autoArray g p n t f).2 = .error e) : Unch g (autoArray g p n t f).1 :=
   autoArray_unch hT p n t f e h
+
+/-! ## Vector-valued attributes: conversion, resize and write in the order of the source
+
+`Tag.position`, `Tag.extent`, `DataArray.polynom_coefficients` and `Property.values` on the step lists that
+`Generated/WriteOrder.lean` renders from the source (`H5Group.write_data` and the setters, statement by statement),
+run by the machine of `Pure/VecWrite.lean`: the file here is the stored dataset and the entity's `updated_at`. -/
+section vectors
+open Nix.VecWrite Nix.Generated.WriteOrder
+
+/-- **`H5Group.write_data` with a float dtype** refuses before it resizes or creates: for every spelling of the
+data (list, tuple, ndarray of any element type, 0-d, n-d), every stored dataset or none -/
+theorem write_data_refused_unchanged (m : M) (hdt : m.dt = some .double) (e : Err)
+    (h : (runWith.runFlat writeDataSteps m).2 = some e) : (runWith.runFlat writeDataSteps m).1.file = m.file :=
+  writeData_refused_unchanged m hdt e h
+
+/-- an accepted `write_data` stores exactly the converted values and leaves the time stamp to its caller -/
+theorem write_data_accepted (m : M) (hdt : m.dt = some .double) (h : (runWith.runFlat writeDataSteps m).2 = none) :
+    (runWith.runFlat writeDataSteps m).1.file.ds = some { rank := m.x.rank, vals := m.x.elems.map (·.val) } ∧
+    (runWith.runFlat writeDataSteps m).1.file.stamp = m.file.stamp := writeData_accepted m hdt h
+
+/-- **the float-vector setters**: a refused assignment leaves the stored vector and `updated_at` as they were -/
+theorem vector_setters_refused_unchanged (nm : String) (s : Setter) (hs : (nm, s) ∈ floatSetters)
+    (f : File) (now : Nat) (x : Arg) (e : Err) (h : (runSetter writeDataSteps s f now x).2 = some e) :
+    (runSetter writeDataSteps s f now x).1 = f := float_setters_refused_unchanged nm s hs f now x e h
+
+/-- **`Property.values`**: a refused assignment leaves the stored values and `updated_at` as they were -/
+theorem property_values_refused_unchanged (f : File) (now : Nat) (x : Arg) (e : Err)
+    (h : (runSetter writeDataSteps propertyValues f now x).2 = some e) :
+    (runSetter writeDataSteps propertyValues f now x).1 = f :=
+  Nix.VecWrite.property_values_refused_unchanged f now x e h
+
+/-- the statements are about the order and the condition found in the source: with the conversion skipped for
+ndarrays, or placed after the resize, the refused `position = np.array(['a','b','c'])` pads the stored `[3/2]` -/
+theorem write_order_matters :
+    ((runWith.runFlat skipForArrays demoM).2 = some .typeError ∧
+      (runWith.runFlat skipForArrays demoM).1.file.ds = some { rank := 1, vals := [3/2, 0, 0] }) ∧
+    ((runWith.runFlat resizeFirst demoM).2 = some .valueError ∧
+      (runWith.runFlat resizeFirst demoM).1.file.ds = some { rank := 1, vals := [3/2, 0, 0] }) :=
+  ⟨skipForArrays_changes_file, resizeFirst_changes_file⟩
+
+/-- non-vacuity: the source's `write_data` refuses that very call and the file is what it was -/
+example : runWith.runFlat writeDataSteps demoM = (demoM, some .valueError) := writeData_demo
+
+/-- non-vacuity of the setter theorem: `tag.position = np.array(['a','b','c'])` is refused (`ValueError`) … -/
+example : (runSetter writeDataSteps tagPosition demoM.file 9 demoM.x).2 = some .valueError := by decide +kernel
+/-- … while `tag.position = [1/2, 5]` is accepted, stored, and stamped -/
+example : runSetter writeDataSteps tagPosition demoM.file 9
+    (.seq false [{ val := 1/2, typeOk := true, convOk := true, h5Ok := true },
+                 { val := 5, typeOk := true, convOk := true, h5Ok := true }]) =
+    ({ ds := some { rank := 1, vals := [1/2, 5] }, stamp := 9 }, none) := by decide +kernel
+
+end vectors
 
 def demo : Graph := run init [.createBlock "b" "t", .createIn [.name "data", .name "b"] "data_array" "a" "t" none]
 
